@@ -212,12 +212,15 @@ class Report:
             "violations": nviol,
         }
         if self.args.replay is None:
-            os.makedirs(os.path.join(VERIF, "evidence"), exist_ok=True)
-            tmp = os.path.join(VERIF, "evidence", ".%s.json.tmp" % self.prop)
+            # VERIF_EVIDENCE_DIR: used only by the mutation tooling, so that runs against a
+            # scratch copy (VERIF_REPO=...) never overwrite the evidence of /repo itself
+            evdir = os.environ.get("VERIF_EVIDENCE_DIR") or os.path.join(VERIF, "evidence")
+            os.makedirs(evdir, exist_ok=True)
+            tmp = os.path.join(evdir, ".%s.json.tmp" % self.prop)
             with open(tmp, "w") as f:
                 json.dump(ev, f, indent=1, sort_keys=True, default=str)
                 f.write("\n")
-            os.replace(tmp, os.path.join(VERIF, "evidence", "%s.json" % self.prop))
+            os.replace(tmp, os.path.join(evdir, "%s.json" % self.prop))
         if close_pool_after:
             close_pool()
         print("%s tier=%s seed=%d evaluations=%d distinct_nontrivial=%d violations=%d known=%d wall=%.1fs" % (
@@ -230,7 +233,7 @@ class Report:
         return 0
 
     def _write_replay(self, bucket, witness, detail, kind):
-        d = os.path.join(VERIF, "replays", self.prop)
+        d = os.path.join(os.environ.get("VERIF_REPLAY_DIR") or os.path.join(VERIF, "replays"), self.prop)
         os.makedirs(d, exist_ok=True)
         name = "_".join(str(x) for x in bucket)
         name = "".join(ch if ch.isalnum() or ch in "-_." else "-" for ch in name)[:120]
